@@ -249,7 +249,7 @@ def c02(tier):
                 'and explores every CFG path x stack depth of every method (FMLVerifier). distinct_nontrivial = distinct compiled methods explored.')
     exe = build('debug')
     wd = scratch('c02')
-    progs = pool.corpus() + pool.over_limit_programs() + pool.construct_family(pairs=(tier == 'thorough'), limit=tier_sizes(tier, 900, None)) + \
+    progs = pool.corpus() + pool.over_limit_programs() + pool.sandwich_programs() + pool.construct_family(pairs=(tier == 'thorough'), limit=tier_sizes(tier, 900, None)) + \
         pool.random_programs(tier_sizes(tier, 150, 4000), base_seed=seed() * 104729 + 5, fault_rate=0.15)
     outs = compile_pool(exe, progs, wd, ['ast', 'prog'], 'c02')
     recs = []
